@@ -113,7 +113,7 @@ type ClientH struct {
 // NewClient builds a real SDK client bound to the in-process service.
 func (s *System) NewClient(collection, alias string, syncType model.SyncType) *ClientH {
 	h := &ClientH{Name: alias, States: map[string][]string{}, Errs: map[string][]string{}, Remotes: map[string][]string{}}
-	h.Stub = &Stub{Svc: s.Svc, Sched: s.Sched, Name: alias}
+	h.Stub = &Stub{Svc: s.Svc, Sched: s.Sched, Name: alias, Down: s.DB.Dead}
 	conf := &orda.ClientConfig{ServerAddr: "fake", NotificationAddr: "fake", CollectionName: collection, SyncType: syncType}
 	h.C = orda.NewClientForVerif(conf, alias, h.Stub, s.Broker.NewClient(alias))
 	s.Cls = append(s.Cls, h)
